@@ -13,6 +13,7 @@
 #include <gudhi/Persistent_cohomology/Field_Zp.h>
 #include <gudhi/Matrix.h>
 #include <gudhi/persistence_matrix_options.h>
+#include <gudhi/zigzag_persistence.h>
 
 #include <functional>
 #include <sstream>
@@ -105,6 +106,72 @@ static void body_matrix(int id) {
   g_result[id] = o.str();
 }
 
+// body D: other matrix flavours (chain with vine/representatives, plain boundary, base) and zigzag persistence
+struct Chain_thread_opts : Gudhi::persistence_matrix::Default_options<Gudhi::persistence_matrix::Column_types::INTRUSIVE_LIST, true> {
+  static const bool has_column_pairings = true;
+  static const bool is_of_boundary_type = false;
+  static const bool has_vine_update = true;
+  static const bool can_retrieve_representative_cycles = true;
+  static const Gudhi::persistence_matrix::Column_indexation_types column_indexation_type =
+      Gudhi::persistence_matrix::Column_indexation_types::POSITION;
+};
+struct Boundary_thread_opts : Gudhi::persistence_matrix::Default_options<Gudhi::persistence_matrix::Column_types::VECTOR, false> {
+  static const bool has_column_pairings = true;
+};
+template <class M>
+static std::string matrix_digest(M& m) {
+  std::ostringstream o;
+  std::vector<std::string> bars;
+  for (auto& b : m.get_current_barcode()) {
+    std::ostringstream q;
+    q << b.dim << ":" << b.birth << ":" << (long long)b.death;
+    bars.push_back(q.str());
+  }
+  std::sort(bars.begin(), bars.end());
+  for (auto& s : bars) o << s << " ";
+  return o.str();
+}
+// boundaries of the 2-skeleton of a tetrahedron, order rotated by id
+static std::vector<std::vector<unsigned>> tetra_boundaries() {
+  return {{}, {}, {}, {}, {0, 1}, {0, 2}, {1, 2}, {0, 3}, {1, 3}, {2, 3}, {4, 5, 6}, {4, 7, 8}, {5, 7, 9}, {6, 8, 9}};
+}
+static void body_chain(int id) {
+  using namespace Gudhi::persistence_matrix;
+  Matrix<Chain_thread_opts> m;
+  for (auto& b : tetra_boundaries()) m.insert_boundary(b);
+  std::ostringstream o;
+  o << matrix_digest(m);
+  if (id % 2) m.vine_swap(4);
+  o << "|" << matrix_digest(m);
+  m.update_representative_cycles();
+  o << "|" << m.get_representative_cycles().size();
+  g_result[id] = o.str();
+}
+static void body_boundary(int id) {
+  using namespace Gudhi::persistence_matrix;
+  Matrix<Boundary_thread_opts> m(7, 5);
+  std::vector<std::vector<std::pair<unsigned, unsigned>>> bs = {{}, {}, {}, {{0, 4}, {1, 1}}, {{1, 4}, {2, 1}}, {{0, 4}, {2, 1}}, {{3, 1}, {4, 1}, {5, 4}}};
+  for (auto& b : bs) m.insert_boundary(b);
+  g_result[id] = matrix_digest(m) + (id ? "" : "");
+}
+static void body_zigzag(int id) {
+  std::ostringstream o;
+  Gudhi::zigzag_persistence::Zigzag_persistence<> zp([&](int dim, int b, int d) { o << dim << ":" << b << ":" << d << " "; });
+  using V = std::vector<int>;
+  zp.insert_cell(V{}, 0);          // 0
+  zp.insert_cell(V{}, 0);          // 1
+  zp.insert_cell(V{}, 0);          // 2
+  zp.insert_cell(V{0, 1}, 1);      // 3
+  zp.insert_cell(V{1, 2}, 1);      // 4
+  zp.insert_cell(V{0, 2}, 1);      // 5
+  if (id % 2) { zp.insert_cell(V{3, 4, 5}, 2); zp.remove_cell(6); }
+  zp.remove_cell(5);
+  zp.remove_cell(4);
+  zp.insert_cell(V{1, 2}, 1);
+  zp.get_current_infinite_intervals([&](int dim, int b) { o << dim << ":" << b << ":inf "; });
+  g_result[id] = o.str();
+}
+
 static std::vector<std::function<void()>> make_bodies(const std::string& scenario, int nthreads) {
   std::vector<std::function<void()>> b;
   for (int i = 0; i < nthreads; ++i) {
@@ -112,6 +179,9 @@ static std::vector<std::function<void()>> make_bodies(const std::string& scenari
     else if (scenario == "tree_link") b.push_back([i]() { body_tree<Gudhi::Simplex_tree<Opt_link>>(i, 10 * i, 3); });
     else if (scenario == "expansion") b.push_back([i]() { body_expansion(i, 5); });
     else if (scenario == "matrix") b.push_back([i]() { body_matrix(i); });
+    else if (scenario == "chain") b.push_back([i]() { body_chain(i); });
+    else if (scenario == "boundary") b.push_back([i]() { body_boundary(i); });
+    else if (scenario == "zigzag") b.push_back([i]() { body_zigzag(i); });
     else if (scenario == "mixed") {
       if (i == 0) b.push_back([i]() { body_tree<Gudhi::Simplex_tree<>>(i, 0, 2); });
       else if (i == 1) b.push_back([i]() { body_expansion(i, 5); });
